@@ -141,6 +141,10 @@ def build_jobs(tier: str) -> list:
             q['Productivity Index'] = gen.fmt(rng.uniform(0.5, 3))     # strong drawdown: pump powers near / below zero get clamped
             q['Injectivity Index'] = gen.fmt(rng.uniform(20, 200))
             q.pop('Reservoir Impedance', None)
+        if 'Reservoir Impedance' in q and (k % 3 == 1 or rng.random() < 0.15):
+            # buoyancy (thermosiphon) outweighing every loss, for part of the life or for all of it: the computed pump power is
+            # negative there and must be reported as zero
+            q['Reservoir Impedance'] = gen.fmt(rng.choice([0.0005, 0.001, 0.002, 0.005, 0.005, 0.01, 0.01, 0.02, 0.03]))
         jobs.append((tag, gen.to_text(q)))
     for name, text in sim.example_inputs().items():
         if name.startswith(('Beckers', 'example6', 'example7', 'MC_', 'SUTRA', 'example_SBT', 'Wanju')):
